@@ -58,6 +58,19 @@ InAll(x)   == x \in AllRetrying \/ x \in Unwrapped
 InQuick(x) == x \in QuickRetrying \/ x \in Unwrapped
 InSmall(x) == x \in SmallScenarios
 
+(* Long retry chains (test vectors only; the model-checked sets above keep max <= 3): every attempt  *)
+(* but possibly the last fails, so that the late gaps of an exponentially growing back-off - before *)
+(* attempt 7, 8, ... - are recorded and judged by BackoffRespected like the early ones.             *)
+Long(Ms) ==
+    {[retry |-> TRUE, max |-> m, stream |-> FALSE, cb |-> "none", tmo |-> FALSE,
+      script |-> [i \in 1..m |-> IF i < m THEN k ELSE z], cancelB |-> 0,
+      base |-> 4, f |-> f, exp |-> e, cdl |-> "none"] :
+        m \in Ms, k \in {"neterr", "fcode"}, z \in {"neterr", "ok"}, f \in {0, 50}, e \in BOOLEAN}
+LongAll   == Long({6, 8, 10})
+LongQuick == Long({8})
+InAllV(x)   == InAll(x) \/ x \in LongAll
+InQuickV(x) == InQuick(x) \/ x \in LongQuick
+
 GenWaits == {0, 1, 2, 3, 4, 5, 6, 8, 9}
 
 =============================================================================
